@@ -1007,3 +1007,14 @@ package starlark
 //@   prop C13
 //@   invariant 1 rangeindex >= -1 && cols == len(args) && forall(k, 0, rangeindex + 1, rows <= vlen(args[k])) && (rangeindex < 0 ==> rows == 0)
 //@   assert /if rows >= 0 \{/ no_more_rows_than_the_shortest_argument: forall(k, 0, len(args), rows <= vlen(args[k]))
+
+// ---- integer parameters of built-ins (C08, C10): AsInt stores a value only if it is exactly
+// representable in the target type -- 2^(bits-1) itself is out of range for a signed target
+//@ func AsInt
+//@   prop C08 C10
+//@   assert /\*ptr = int8\(i\)/ fits_int8: -128 <= i && i <= 127
+//@   assert /\*ptr = int16\(i\)/ fits_int16: -32768 <= i && i <= 32767
+//@   assert /\*ptr = int32\(i\)/ fits_int32: MIN32 <= i && i <= MAX32
+//@   assert /\*ptr = uint8\(i\)/ fits_uint8: i <= 255
+//@   assert /\*ptr = uint16\(i\)/ fits_uint16: i <= 65535
+//@   assert /\*ptr = uint32\(i\)/ fits_uint32: i <= MAXU32
